@@ -68,7 +68,9 @@ func c07URIs(thorough bool) []string {
 	// ("app.so.test", "app.o.test": the root domain with its leading characters removed; "test": the root
 	// domain's own parent)
 	hosts := []string{"sso.test", "app.sso.test", "app.so.test", "app.o.test", "evil.test", "sso.test.evil.test", "evilsso.test", "app.ssoxtest", "sso-test", "APP.SSO.TEST", "app.sso.test.", "app.sso.test:443", "[::1]", "", "test",
-		"evil.test%2f.sso.test", "evil.test\\.sso.test", "evil.test\t.sso.test", "evil.test#.sso.test", "evil.test?.sso.test"}
+		"evil.test%2f.sso.test", "evil.test\\.sso.test", "evil.test\t.sso.test", "evil.test#.sso.test", "evil.test?.sso.test",
+		// addresses that merely begin with the authenticator's own address
+		harness.AuthHost + ".evil.test", harness.AuthHost + "-evil.test", harness.AuthHost + "@evil.test"}
 	tails := []string{"/oauth2/callback", "/cb?next=//evil.test", "/#@evil.test", "/@evil.test"}
 	if !thorough {
 		users = []string{"", "app.sso.test@"}
